@@ -25,8 +25,23 @@ class Custom(Exception):
         self.tag = tag
 
 
+class Custom2(Exception):
+    """its constructor validates its parameters: given its own args tuple back it raises ValueError, not TypeError"""
+
+    def __init__(self, *parts):
+        if len(parts) != 1:
+            raise ValueError('exactly one part expected')
+        super().__init__(parts[0], 'x')       # args == (value, 'x'): handing them back raises ValueError
+
+
+def NARGS():
+    return 2 if Boom is Custom2 else 1
+
+
 def mkboom(v):
-    return Custom(v, 'tag') if Boom is Custom else Boom(v)
+    if Boom is Custom:
+        return Custom(v, 'tag')
+    return Boom(v)
 
 
 class Abort(BaseException):
@@ -49,7 +64,7 @@ def h_event(cfg):
         return sym_num(name, sort_of(sorts, i), 0)
 
     global Boom
-    Boom = {'base': Abort, 'custom': Custom}.get(cfg.get('exc'), _Boom)
+    Boom = {'base': Abort, 'custom': Custom, 'custom2': Custom2}.get(cfg.get('exc'), _Boom)
     V = sym_int('V')
     fails = target in ('fail', 'child-raise')
     step = [0]
@@ -181,7 +196,7 @@ def h_event(cfg):
         if not early_procs or uncaught:
             check('c02.unhandled-failure-raises', crash is not None, 'run continued silently')
             if crash is not None:
-                check('c02.crash-same-exception', type(crash[0]) is Boom and len(crash[0].args) == 1 and
+                check('c02.crash-same-exception', type(crash[0]) is Boom and len(crash[0].args) == NARGS() and
                       eq(crash[0].args[0], V))
                 check('c02.crash-at-failure-instant', eq(crash[1], P))
                 cover('crash')
@@ -215,7 +230,7 @@ def h_event(cfg):
         if fails:
             check('c02.outcome-kind', d[3] == 'exc', d[0])
             if d[3] == 'exc':
-                check('c02.exception-args', len(d[4]) == 1 and eq(d[4][0], V), d[0])
+                check('c02.exception-args', len(d[4]) == NARGS() and eq(d[4][0], V), d[0])
                 if d[5] is not None:
                     check('c02.exception-is-a-copy', d[5] is not orig_exc and type(d[5]) is Boom, d[0])
                     excs.append(d[5])
@@ -311,6 +326,9 @@ def jobs(tier, seed):
                            'cfg': {'target': target, 'waiters': ws, 'sorts': 'int', 'exc': 'base'}})
                 js.append({'harness': 'event', 'weight': 4 ** len(ws),
                            'cfg': {'target': target, 'waiters': ws, 'sorts': 'int', 'exc': 'custom'}})
+                if len(ws) <= 2:
+                    js.append({'harness': 'event', 'weight': 4 ** len(ws),
+                               'cfg': {'target': target, 'waiters': ws, 'sorts': 'int', 'exc': 'custom2'}})
         if not target.startswith('child'):
             for sec in ('succeed', 'fail'):
                 js.append({'harness': 'event', 'weight': 8,
